@@ -272,6 +272,15 @@ def main():
     chk.notes.append('receiver/argument aliasing with identical results: C01, C02 (methods, every alias partition), C03 (formulas and group law), C04/C16 (multiplications); '
                      'closure of the validity invariants: C01/C02 kernel range obligations, C03 result-flagged-valid / result-on-curve')
     chk.outside.append('histories longer than one step are covered by induction on the invariants, not enumerated')
+    # closure of "every Scalar is canonical / every Point is on the curve" under the operations that take a caller-chosen control word: the
+    # exported ConditionalSelect / ConditionalNegate of Point and Scalar forward it to the limb-level selects, which must treat EVERY non-zero
+    # word alike (anything else mixes the operands limb by limb into an invalid object).  The C01 / C02 method obligations for them are
+    # re-decided here.
+    from .common import include_ring_dependency
+    if not os.environ.get('VERIF_ONLY') or 'dep' in os.environ.get('VERIF_ONLY', ''):
+        why = 'conditional operations with an arbitrary control word return one of the operands (a valid object), for every value of the word'
+        include_ring_dependency(chk, tasks, 'C01', 'field', [('methods', r'Conditional')], why)
+        include_ring_dependency(chk, tasks, 'C02', 'scalar', [('methods', r'Conditional')], why)
     chk.run_tasks(tasks)
     chk.discharge()
     chk.finish()
